@@ -370,6 +370,17 @@ def _rule_R06_1_on(ctx, ot):
                                 and s[2][1]["adt"] == "std::option::Option":
                             (nones if s[2][1]["variant"] == "None" else somes).add(s[1][0])
                 tl = ops.forward_taint(f, seeds=nones) if nones and not somes else set()
+                # ... or is consumed after the join by `.map(Value::Int)
+                # .ok_or_else(|| overflow(a, b))`
+                for u1 in f.calls():
+                    if (u1.res or "").endswith("Option::<T>::map") and len(u1.args) > 1 \
+                            and mir.is_place_operand(u1.args[0]) and mir.op_place(u1.args[0])[0] in tl \
+                            and (mir.op_const(u1.args[1]) or {}).get("fn") == VALUE + "::Int" \
+                            and u1.bb in f.reach_from(zero_t, avoid=[nz_t]):
+                        u2 = [u for u in ops.forward_users(f, u1)
+                              if (u.res or "").split("::")[-1] in ("ok_or_else", "ok_or")]
+                        if len(u2) == 1 and (ERR, "IntOverflow") in ops.block_constructs(prog, f, u2[0].bb):
+                            via_none = True
                 for b2 in f.reach_from(zero_t, avoid=[nz_t]):
                     if f.term(b2)["k"] != "switch":
                         continue
